@@ -23,21 +23,7 @@ def _getter(name, field, ty):
     contract(_P + name)(_c)
 
 
-def _setter(name, field, vty, wrap):
-    class _c(Contract):
-        params = dict(self=MP, value=vty)
-        modifies = (field,)
-
-        @staticmethod
-        def ensures(c):
-            return [("assigned", c.self.t[field].t == wrap(c.value.t))]
-
-    contract(_P + name + ".setter")(_c)
-
-
 _getter("time", "_time", ODt)
 _getter("measurement", "_measurement", TStr)
 _getter("tags", "_tags", TagsD)
 _getter("fields", "_fields", FldsD)
-_setter("time", "_time", Dt, lambda t: o_some(ODt, t))
-_setter("measurement", "_measurement", TStr, lambda t: t)
